@@ -1,9 +1,13 @@
 #!/bin/bash
-# MANIFEST.setup_cmd: make sure hypothesis is importable beside the repository's packages (offline).
+# MANIFEST.setup_cmd: make sure hypothesis is importable beside the repository's packages and atheris sits under .deps (offline).
 set -e
 PY="${VERIF_PYTHON:-/venv/bin/python}"
 if ! "$PY" -c "import hypothesis" 2>/dev/null; then
   /venv/bin/pip install --no-index --find-links /opt/veriftools/wheels hypothesis
 fi
 "$PY" -c "import hypothesis, pandas, numpy, scipy, pysam; print('setup ok: hypothesis', hypothesis.__version__)"
+# atheris (coverage-guided campaigns of the thorough tier for C08, C13); optional: the thorough checks report when it is missing
+if [ ! -d .deps/atheris ]; then
+  /venv/bin/pip install -q --no-index --find-links /opt/veriftools/wheels --target .deps atheris 2>/dev/null || echo "setup: atheris not installed (thorough-tier fuzz campaigns will be skipped)"
+fi
 mkdir -p evidence replays
